@@ -134,3 +134,51 @@ func VerifC19Raw(nw, maxb, part int) {
 		rt.Cover("C19.raw-forwarded")
 	}
 }
+
+// VerifC19Long: one line of n bytes (n around bufio.Writer's 4096-byte buffer and up to the
+// 10000 bytes of the property's quantifier) in one Write call, optionally after a short
+// unterminated chunk and optionally terminated. The filler is a concrete letter; the first, a
+// middle and the last byte are symbolic (any byte that is not CR, LF, ESC or 0xC2).
+func VerifC19Long(n int) {
+	rt.Unwind(20000)
+	t := &task.Task{Name: "tk"}
+	sink := &c19Sink{}
+	d := newPrefixedOutputWriter(t, sink)
+	p := make([]byte, n)
+	for i := range p {
+		p[i] = 'x'
+	}
+	for k, pos := range []int{0, n / 2, n - 1} {
+		b := rt.Uint8("long." + c19Digits[k])
+		rt.Assume(rt.And(b != 0x1b, b != 0xc2, b != '\r', b != '\n'))
+		p[pos] = b
+	}
+	want := ""
+	if rt.Bool("short-chunk-first") {
+		d.Write([]byte("hd"))
+		want = "hd"
+	}
+	want += string(p)
+	if rt.Bool("terminated") {
+		p = append(p, '\n')
+	}
+	wn, err := d.Write(p)
+	rt.Assert(rt.And(err == nil, wn == len(p)), "C19.write-accepts-all-bytes")
+	rt.Assert(d.WriteFooter() == nil, "C19.footer-ok")
+	const prefix = "tk: "
+	got := ""
+	for _, wr := range sink.writes {
+		// concurrent tasks share the destination and nothing serialises them but the destination's
+		// Write: a line must arrive there in ONE call, prefix and terminator included
+		ok := len(wr) >= len(prefix)+2
+		rt.Assert(ok, "C19.line-has-prefix-and-terminator")
+		if !ok {
+			return
+		}
+		rt.Assert(wr[:len(prefix)] == prefix, "C19.line-starts-with-task-name")
+		rt.Assert(wr[len(wr)-2:] == "\r\n", "C19.line-is-terminated")
+		got += wr[len(prefix) : len(wr)-2]
+	}
+	rt.Assert(got == want, "C19.long-line-nothing-lost-duplicated-reordered")
+	rt.Cover("C19.long-line-checked")
+}
